@@ -42,7 +42,7 @@ VARIABLES S,              \* the heap [mags, bus, dicts, objs]
 vars == <<S, io, hist, cfg, npure, ninpl>>
 
 AllDevs == {"rhs_converted_in_place", "log_operands_to_linear", "arg_converted_in_place", "operand_to_rad",
-            "operand_to_none", "ctor_shares_magnitude", "ctor_mutates_magnitude"}
+            "operand_to_none", "ctor_shares_magnitude", "ctor_mutates_magnitude", "decimal_promoted_in_place"}
 Fx(d) == d \in Fixed
 -----------------------------------------------------------------------------
 \* heap helpers
@@ -58,7 +58,10 @@ OMag(T, o) == T.mags[T.objs[o].m]
 \* Magnitude and both BaseUnits; the result is a new Magnitude carrying the SAME error.  Result = last cell of mags.
 ConvertM(T, m, b1, b2) ==
   LET pr == T.mags[m].dec \/ T.bus[b1].dm \/ T.bus[b2].dm
-      T1 == IF pr THEN [T EXCEPT !.mags[m].dec = TRUE, !.bus[b1].dm = TRUE, !.bus[b2].dm = TRUE] ELSE T
+      \* magnitude1.value = Decimal(magnitude1.value) etc.: the operand's own cells are rewritten (named deviation
+      \* decimal_promoted_in_place: a float quantity reports a Decimal afterwards)
+      T1 == IF pr /\ ~Fx("decimal_promoted_in_place")
+            THEN [T EXCEPT !.mags[m].dec = TRUE, !.bus[b1].dm = TRUE, !.bus[b2].dm = TRUE] ELSE T
   IN NewMag(T1, [T.mags[m] EXCEPT !.rep = MUnit(T, b2), !.dec = pr])
 
 \* Quantity.to(BaseUnits object b0): BaseUnits(b0) is a new object sharing b0's dict
@@ -92,6 +95,9 @@ QInit(T, m, b) ==
   ELSE [T EXCEPT !.objs = Append(@, [m |-> m, b |-> b])]
 
 Cell(RO, rep) == [q |-> RO.q, rep |-> rep, lin |-> 0, e |-> RO.e, dec |-> RO.dec, arr |-> RO.arr, z |-> RO.z]
+\* a sum / linspace is computed from the converted copy of the right operand (the last Magnitude made): a promoted copy
+\* makes the result a Decimal
+WithConv(RO, T) == [RO EXCEPT !.dec = @ \/ T.mags[Len(T.mags)].dec]
 \* a result with a new Magnitude and new BaseUnits of units u
 ResFresh(T, RO, u) ==
   LET T1 == FreshBU(T, u)
@@ -102,12 +108,22 @@ ResShareBU(T, RO, b) ==
   LET T1 == NewMag(T, Cell(RO, MUnit(T, b))) IN QInit(T1, Len(T1.mags), b)
 
 -----------------------------------------------------------------------------
+\* UnitType.convert promotes with Decimal(magnitude1.value): an array operand makes that raise (before anything is written)
+PromoRaises(T, o, dm2) ==
+  ~Fx("decimal_promoted_in_place") /\ OMag(T, o).arr /\ (OMag(T, o).dec \/ T.bus[T.objs[o].b].dm \/ dm2)
+MConvRaises(A, T) ==
+  CASE A.op \in {"add", "sub", "np.linspace", "np.logspace"} -> PromoRaises(T, A.y, T.bus[T.objs[A.x].b].dm)
+    [] A.op = "eq" -> ~OMag(T, A.y).z /\ PromoRaises(T, A.y, FALSE)
+    [] A.op \in {"value", "to", "radd", "rsub"} \cup SinOps \cup ArcOps -> PromoRaises(T, A.x, FALSE)
+    [] OTHER -> FALSE
 \* the machine step.  RO = the result object (tokens, flags) computed from the MACHINE's view of the operands,
 \* refused = the machine's own refusal (RefusesOn asked about its view of the operands)
 MStep(A, T, RO, refused, tok) ==
   LET x == A.x  y == A.y  op == A.op IN
   CASE op \in {"add", "sub"} ->
-         IF refused THEN T
+         \* the dimension / unit check comes first; then the right operand is converted; only then may the magnitudes
+         \* turn out not to combine (Decimal with array)
+         IF AddUnitsRefused(OUnit(T, x), OUnit(T, y)) \/ MConvRaises(A, T) THEN T
          ELSE IF IsLog(OUnit(T, x)) THEN
             \* LogarithmicUnitType.add/sub: mag1 = unit1.magnitude ; mag2 = unit2.to(..).magnitude ; both .value overwritten
             LET m1 == T.objs[x].m
@@ -115,24 +131,24 @@ MStep(A, T, RO, refused, tok) ==
                 m2 == T1.objs[y].m
                 T2 == IF Fx("log_operands_to_linear") THEN T1 ELSE [T1 EXCEPT !.mags[m1].lin = @ + 1]
                 T3 == IF Fx("log_operands_to_linear") THEN T2 ELSE [T2 EXCEPT !.mags[m2].lin = @ + 1]
-            IN ResShareBU(T3, RO, T3.objs[x].b)
+            IN IF refused THEN T3 ELSE ResShareBU(T3, WithConv(RO, T1), T3.objs[x].b)
          ELSE
-            \* UnitType.add/sub: unit2.to(unit1.baseunits) converts the right operand IN PLACE
+            \* UnitType.add/sub: unit2.to(unit1.baseunits) converts the right operand IN PLACE (a copy since 1a9ae55)
             LET T1 == IF Fx("rhs_converted_in_place") THEN ConvCopyBU(T, y, T.objs[x].b) ELSE ToBU(T, y, T.objs[x].b)
-            IN ResShareBU(T1, RO, T1.objs[x].b)
+            IN IF refused THEN T1 ELSE ResShareBU(T1, WithConv(RO, T1), T1.objs[x].b)
     [] op \in {"mul", "div"} ->
          IF refused THEN T ELSE ResFresh(T, RO, ExMerge(OUnit(T, x), OUnit(T, y), IF op = "mul" THEN 1 ELSE -1))
     [] op = "eq" ->
          \* other.to(self.units()) unless other is zero - before the comparison itself may fail on a Decimal
-         IF ~Convertible(OUnit(T, y), OUnit(T, x)) \/ OMag(T, y).z THEN T
+         IF ~Convertible(OUnit(T, y), OUnit(T, x)) \/ OMag(T, y).z \/ MConvRaises(A, T) THEN T
          ELSE IF Fx("rhs_converted_in_place") THEN ConvCopyStr(T, y, OUnit(T, x)) ELSE ToStr(T, y, OUnit(T, x))
     [] op \in {"np.linspace", "np.logspace"} ->
          \* b = b.to(a.baseunits) - before numpy itself may fail on a Decimal
-         IF ~Convertible(OUnit(T, y), OUnit(T, x)) THEN T
+         IF ~Convertible(OUnit(T, y), OUnit(T, x)) \/ MConvRaises(A, T) THEN T
          ELSE LET T1 == IF Fx("arg_converted_in_place")
                         THEN ConvCopyBU(T, y, T.objs[x].b)        \* b._convert(b.magnitude, b.baseunits, a.baseunits)
                         ELSE ToBU(T, y, T.objs[x].b)
-              IN IF refused THEN T1 ELSE ResShareBU(T1, RO, T1.objs[x].b)
+              IN IF refused THEN T1 ELSE ResShareBU(T1, WithConv(RO, T1), T1.objs[x].b)
     [] op \in {"radd", "rsub"} ->
          \* left = Quantity(number) ; self.to(left.baseunits)
          IF refused THEN T
@@ -146,10 +162,10 @@ MStep(A, T, RO, refused, tok) ==
     [] op \in PowOps -> IF refused THEN T ELSE ResFresh(T, RO, ExScale(OUnit(T, x), PowN(op)))
     [] op \in SinOps ->
          \* inputs[0].to('rad') - before the function itself may fail on a Decimal
-         IF ~Convertible(OUnit(T, x), URad) THEN T
+         IF ~Convertible(OUnit(T, x), URad) \/ MConvRaises(A, T) THEN T
          ELSE LET T1 == IF Fx("operand_to_rad") THEN ConvCopyStr(T, x, URad) ELSE ToStr(T, x, URad) IN IF refused THEN T1 ELSE ResFresh(T1, RO, UNone)
     [] op \in ArcOps ->
-         IF ~Convertible(OUnit(T, x), UNone) THEN T
+         IF ~Convertible(OUnit(T, x), UNone) \/ MConvRaises(A, T) THEN T
          ELSE LET T1 == IF Fx("operand_to_none") THEN ConvCopyStr(T, x, UNone) ELSE ToStr(T, x, UNone) IN IF refused THEN T1 ELSE ResFresh(T1, RO, URad)
     [] op = "value" ->
          \* _convert(self.magnitude, self.baseunits, BaseUnits(expression)): only the Decimal promotion touches self
@@ -180,7 +196,7 @@ MStep(A, T, RO, refused, tok) ==
 \* the machine's view of its objects as value records, its own refusal and its own result object
 MObj(T, o) == LET c == OMag(T, o) IN [q |-> c.q, u |-> OUnit(T, o), e |-> c.e, dec |-> c.dec, arr |-> c.arr, z |-> c.z]
 MIo(T) == [o \in 1..Len(T.objs) |-> MObj(T, o)]
-MRefuses(A, T) == RefusesOn(A, MObj(T, A.x), IF A.y > 0 THEN MObj(T, A.y) ELSE MObj(T, A.x))
+MRefuses(A, T) == RefusesOn(A, MObj(T, A.x), IF A.y > 0 THEN MObj(T, A.y) ELSE MObj(T, A.x)) \/ MConvRaises(A, T)
 
 \* the name under which a departure of object o during action A is known
 DevName(A, T, o) ==
@@ -239,6 +255,8 @@ Step(A) ==
               \* Magnitude is replaced by a converted copy of equal projection (must = FALSE: x.f/f may differ from x in the last bit)
               devs == {[o |-> o, d |-> DevName(A, S, o), must |-> MProj(T, o) # MProj(S, o)] :
                           o \in {o \in old : o # I.recv /\ (MProj(T, o) # MProj(S, o) \/ T.objs[o].m # S.objs[o].m)}}
+                      \cup {[o |-> o, d |-> "decimal_promoted_in_place", must |-> TRUE] :
+                               o \in {o \in old : o # I.recv /\ OMag(T, o).dec # OMag(S, o).dec}}
           IN /\ S' = T /\ io' = I.io
              /\ hist' = Append(hist, [a |-> A, res |-> I.res, raises |-> I.raises, recv |-> I.recv, devs |-> devs, mraises |-> mref,
                                       mres |-> IF Len(T.objs) > Len(S.objs) THEN Len(T.objs) ELSE 0,
